@@ -29,8 +29,11 @@ use std::str::FromStr;
 use std::sync::Mutex;
 use bcder::Mode;
 use bcder::encode::{PrimitiveContent, Values};
-use chrono::{DateTime, Utc};
+use chrono::{DateTime, TimeDelta, Utc};
 use rayon::prelude::*;
+use rpki::crypto::keys::{PublicKey, PublicKeyFormat};
+use rpki::crypto::signature::{Signature, SignatureAlgorithm};
+use rpki::crypto::signer::{KeyError, Signer, SigningError};
 use rpki::repository::x509::{Serial, Time, Validity};
 use rpki_verif::{guard, hex, Ctx};
 
@@ -298,6 +301,25 @@ impl SinkKind {
     }
 }
 
+//------------ a signer whose "random" octets are a known pattern -----------
+
+/// Only `rand` is used by `Serial::random` / `short_random`; it fills the
+/// target with the octets `start, start+step, start+2*step, ...`.
+struct PatternSigner { start: u8, step: u8 }
+impl PatternSigner {
+    fn stream(&self, n: usize) -> Vec<u8> { (0..n).map(|i| self.start.wrapping_add((i as u8).wrapping_mul(self.step))).collect() }
+}
+impl Signer for PatternSigner {
+    type KeyId = ();
+    type Error = io::Error;
+    fn create_key(&self, _: PublicKeyFormat) -> Result<(), io::Error> { Err(io::Error::other("not a key store")) }
+    fn get_key_info(&self, _: &()) -> Result<PublicKey, KeyError<io::Error>> { Err(KeyError::KeyNotFound) }
+    fn destroy_key(&self, _: &()) -> Result<(), KeyError<io::Error>> { Err(KeyError::KeyNotFound) }
+    fn sign<Alg: SignatureAlgorithm, D: AsRef<[u8]> + ?Sized>(&self, _: &(), _: Alg, _: &D) -> Result<Signature<Alg>, SigningError<io::Error>> { Err(SigningError::KeyNotFound) }
+    fn sign_one_off<Alg: SignatureAlgorithm, D: AsRef<[u8]> + ?Sized>(&self, _: Alg, _: &D) -> Result<(Signature<Alg>, PublicKey), io::Error> { Err(io::Error::other("not a key store")) }
+    fn rand(&self, target: &mut [u8]) -> Result<(), io::Error> { let s = self.stream(target.len()); target.copy_from_slice(&s); Ok(()) }
+}
+
 //------------ reference big numbers for Serial ----------------------------
 
 /// Decimal text of a big-endian unsigned octet string (base 10^9 limbs).
@@ -412,7 +434,7 @@ fn main() {
         v.sort(); v.dedup(); v
     } else { vec![0, 1, 43200, 86398, 86399] };
     let sp = ctx.space("time.calendar_sweep",
-        "every calendar day 0001-01-01..9999-12-31 (own month-length walk, cross-checked per day against days-from-civil) x listed seconds of the day: instant -> Time -> encode_varied must equal the hand-built TLV (UTCTime iff 1950<=year<=2049); hand-built TLV -> take_from and take_opt_from must give the instant back; for 1950..2049 the GeneralizedTime form of the same instant must decode to it too; non-trivial = every (day, second) pair, all distinct by construction");
+        "every calendar day 0001-01-01..9999-12-31 (own month-length walk, cross-checked per day against days-from-civil) x listed seconds of the day: instant -> Time -> encode_varied must equal the hand-built TLV (UTCTime iff 1950<=year<=2049); hand-built TLV -> take_from and take_opt_from must give the instant back; for 1950..2049 the GeneralizedTime form of the same instant must decode to it too; the deprecated to_binary_time must equal timestamp(); non-trivial = every (day, second) pair, all distinct by construction");
     sp.set("seconds_of_day", serde_json::json!(sods_all));
     let sods = &sods_all;
     (1i64..=9999).into_par_iter().for_each(|y| {
@@ -436,6 +458,8 @@ fn main() {
                 }
                 if want[0] == UTC { n_utc += 1 } else { n_gen += 1 }
                 evals += 1;
+                #[allow(deprecated)]
+                if mk_time(ts, 0).to_binary_time() != ts { lf.fail("C17.time.to_binary_time", wit, || format!("to_binary_time gave {} for the instant with timestamp {ts}", { #[allow(deprecated)] mk_time(ts, 0).to_binary_time() })) }
                 let mut forms = vec![want];
                 if forms[0][0] == UTC { forms.push(model_encode(y, mo, d, sod, Some(GEN))) }
                 for f in &forms {
@@ -634,14 +658,26 @@ fn main() {
         v.sort(); v.dedup(); v
     };
     let sp = ctx.space("validity.verify_at",
-        "all (not-before, not-after, now) triples over the instant domain (6 anchors: 0001-01-01, 1950-01-01, epoch, 2000-02-29T12, 2050-01-01, 9999-12-31T23:59:59, each with -1s, -1ns, 0, +1ns, +1s-1ns, +1s neighbours): verify_at is Ok iff nb <= now <= na on (seconds, nanoseconds) tuples; verify_not_before / verify_not_after alone likewise; non-trivial = triples where now equals a bound or lies within 1 s of one");
+        "all (not-before, not-after, now) triples over the instant domain (6 anchors: 0001-01-01, 1950-01-01, epoch, 2000-02-29T12, 2050-01-01, 9999-12-31T23:59:59, each with -1s, -1ns, 0, +1ns, +1s-1ns, +1s neighbours): verify_at is Ok iff nb <= now <= na on (seconds, nanoseconds) tuples; verify_not_before / verify_not_after alone likewise; for every (nb, na) pair the wall-clock verify() equals verify_at(Time::now()); non-trivial = triples where now equals a bound or lies within 1 s of one");
     sp.set("instants", serde_json::json!(inst_dom.len()));
     {
         let n = inst_dom.len();
         (0..n).into_par_iter().for_each(|i| {
             let mut lf = Lf::new(&ctx); let mut oc = Oc::new(); let (mut ev, mut nt) = (0u64, 0u64);
             let nb = inst_dom[i];
-            for &na in &inst_dom { for &now in &inst_dom {
+            for &na in &inst_dom {
+                // wall-clock sibling: verify() must give the verdict of verify_at(Time::now()); no domain instant lies within 20 years of the real now, so the verdict cannot flip between the two calls
+                let v = Validity::new(mk_time(nb.0, nb.1), mk_time(na.0, na.1));
+                match guard(|| { let t0 = Time::now(); (inst(t0), v.verify().is_ok(), v.verify_at(t0).is_ok()) }) {
+                    Err(p) => lf.fail("C17.validity.no_panic", || format!("verify() nb={}+{}ns na={}+{}ns", render_ts(nb.0), nb.1, render_ts(na.0), na.1), || p.clone()),
+                    Ok((t0, a, b)) => {
+                        let want = nb <= t0 && t0 <= na;
+                        if a != b || a != want { lf.fail("C17.validity.verify_now", || format!("nb={}+{}ns na={}+{}ns", render_ts(nb.0), nb.1, render_ts(na.0), na.1), || format!("verify() is {a}, verify_at(Time::now()) is {b}, nb <= now <= na is {want} (now = {})", render_ts(t0.0))) }
+                        bump(&mut oc, if a { "current-by-wall-clock" } else { "not-current-by-wall-clock" });
+                    }
+                }
+                ev += 1;
+            for &now in &inst_dom {
                 let want = nb <= now && now <= na;
                 let v = Validity::new(mk_time(nb.0, nb.1), mk_time(na.0, na.1));
                 let t = mk_time(now.0, now.1);
@@ -941,6 +977,118 @@ fn main() {
     }
     sp.done(true, "all boundary integers of both widths");
 
+    // ---------------------------------------------------------------- (13b)
+    let sp = ctx.space("time.years_from_date",
+        "every day of the years 1895..1905, 1995..2005, 2019..2031, 2095..2105 x seconds of the day {0, 43200, 86399} (+ one sub-second instant per day) x years in -5..=5: years_from_date gives the same month, day, hour, minute, second in year+n, except that February 29 becomes February 28 (as documented, also when the target year is a leap year) and sub-second parts are dropped; expected instant from the harness' own calendar; non-trivial = (date, n) with n != 0; outcome classes: leap day normalised / ordinary day");
+    {
+        let mut years: Vec<i64> = Vec::new();
+        for r in [1895..=1905i64, 1995..=2005, 2019..=2031, 2095..=2105] { years.extend(r) }
+        years.par_iter().for_each(|&y| {
+            let mut lf = Lf::new(&ctx); let (mut ev, mut nt, mut leap, mut ord) = (0u64, 0u64, 0u64, 0u64);
+            for mo in 1..=12u32 { for d in 1..=dim(y, mo) {
+                let dn = days_from_civil(y, mo, d);
+                for (sod, ns) in [(0u32, 0u32), (43200, 0), (86399, 0), (45296, 999_999_999)] {
+                    let date = DateTime::<Utc>::from_timestamp(dn * 86400 + sod as i64, ns).expect("representable");
+                    for n in -5i32..=5 {
+                        let td = if mo == 2 && d == 29 { 28 } else { d };
+                        let want = days_from_civil(y + n as i64, mo, td) * 86400 + sod as i64;
+                        let wit = || format!("years_from_date({n}, {}+{ns}ns)", render_ts(dn * 86400 + sod as i64));
+                        match guard(|| inst(Time::years_from_date(n, date))) {
+                            Err(p) => lf.fail("C17.time.no_panic", wit, || p.clone()),
+                            Ok(got) => if got != (want, 0) { lf.fail("C17.time.years_from_date", wit, || format!("gave {}+{}ns, expected {}", render_ts(got.0), got.1, render_ts(want))) }
+                        }
+                        ev += 1; if n != 0 { nt += 1 }
+                        if td != d { leap += 1 } else { ord += 1 }
+                    }
+                }
+            }}
+            sp.evals(ev); sp.nontrivial(nt); sp.outcomes_n("leap-day-normalised", leap); sp.outcomes_n("ordinary-day", ord);
+        });
+        sp.sample_str(|| "years_from_date(4, 2020-02-29T12:00:00Z) -> 2024-02-28T12:00:00Z".to_string());
+    }
+    sp.done(true, "all days of 46 years x 4 times of day x 11 offsets");
+
+    let sp = ctx.space("time.wall_clock",
+        "the Time::now()-based constructors, bracketed between two readings of Time::now(): tomorrow = now + 1 day, next_week = now + 7 days, five_minutes_ago / five_minutes_from_now = now -+ 300 s, next_year = years_from_now(1) and years_from_now(n) for n in -5..=5 equal years_from_date(n, t) for a t between the two readings (years_from_date is checked above); Validity::from_duration(d) / from_secs(s) for d in {0, +-1 s, +-1 day, +-10 years}: the bounds are now and now + d, the earlier one first; each repeated 200 times; non-trivial = every call; outcome classes: forward / backward / zero offset");
+    {
+        let mut lf = Lf::new(&ctx);
+        let between = |lo: (i64, u32), x: (i64, u32), hi: (i64, u32)| lo <= x && x <= hi;
+        let shift = |t: (i64, u32), secs: i64| (t.0 + secs, t.1);
+        for _round in 0..200 {
+            for (name, secs, f) in [("tomorrow", 86400i64, Time::tomorrow as fn() -> Time), ("next_week", 7 * 86400, Time::next_week as fn() -> Time),
+                ("five_minutes_ago", -300, Time::five_minutes_ago as fn() -> Time), ("five_minutes_from_now", 300, Time::five_minutes_from_now as fn() -> Time)] {
+                sp.eval(); sp.nontrivial(1);
+                match guard(|| { let a = inst(Time::now()); let x = inst(f()); let b = inst(Time::now()); (a, x, b) }) {
+                    Err(p) => lf.fail("C17.time.no_panic", || name.to_string(), || p.clone()),
+                    Ok((a, x, b)) => {
+                        if !between(shift(a, secs), x, shift(b, secs)) { lf.fail("C17.time.wall_clock", || name.to_string(), || format!("{name}() = {}+{}ns is not now{secs:+}s for any now in [{}+{}ns, {}+{}ns]", render_ts(x.0), x.1, render_ts(a.0), a.1, render_ts(b.0), b.1)) }
+                        sp.outcome(if secs > 0 { "forward" } else { "backward" });
+                    }
+                }
+            }
+            for n in -5i32..=6 {
+                sp.eval(); sp.nontrivial(1);
+                let name = if n == 6 { "next_year()".to_string() } else { format!("years_from_now({n})") };
+                let k = if n == 6 { 1 } else { n };
+                match guard(|| { let a = Utc::now(); let x = if n == 6 { Time::next_year() } else { Time::years_from_now(n) }; let b = Utc::now();
+                    (inst(Time::years_from_date(k, a)), inst(x), inst(Time::years_from_date(k, b))) }) {
+                    Err(p) => lf.fail("C17.time.no_panic", || name.clone(), || p.clone()),
+                    Ok((a, x, b)) => {
+                        if !between(a.min(b), x, a.max(b)) { lf.fail("C17.time.wall_clock", || name.clone(), || format!("gave {}, years_from_date of the two surrounding clock readings gave {} and {}", render_ts(x.0), render_ts(a.0), render_ts(b.0))) }
+                        sp.outcome(if k > 0 { "forward" } else if k < 0 { "backward" } else { "zero" });
+                    }
+                }
+            }
+            for secs in [0i64, 1, -1, 86400, -86400, 315_576_000, -315_576_000] {
+                for via_secs in [false, true] {
+                    sp.eval(); sp.nontrivial(1);
+                    let name = if via_secs { format!("Validity::from_secs({secs})") } else { format!("Validity::from_duration({secs} s)") };
+                    match guard(|| { let a = inst(Time::now()); let v = if via_secs { Validity::from_secs(secs) } else { Validity::from_duration(TimeDelta::try_seconds(secs).unwrap()) }; let b = inst(Time::now());
+                        (a, inst(v.not_before()), inst(v.not_after()), b, v.verify().is_ok()) }) {
+                        Err(p) => lf.fail("C17.validity.no_panic", || name.clone(), || p.clone()),
+                        Ok((a, nb, na, b, _cur)) => {
+                            let (lo_off, hi_off) = if secs >= 0 { (0, secs) } else { (secs, 0) };
+                            if !between(shift(a, lo_off), nb, shift(b, lo_off)) || !between(shift(a, hi_off), na, shift(b, hi_off)) || nb > na {
+                                lf.fail("C17.validity.from_duration", || name.clone(), || format!("window [{}+{}ns, {}+{}ns] is not [now, now{secs:+}s] in order for a now in [{}+{}ns, {}+{}ns]", render_ts(nb.0), nb.1, render_ts(na.0), na.1, render_ts(a.0), a.1, render_ts(b.0), b.1))
+                            }
+                            sp.outcome(if secs > 0 { "forward" } else if secs < 0 { "backward" } else { "zero" });
+                        }
+                    }
+                }
+            }
+        }
+    }
+    sp.done(true, "30 constructors x 200 repetitions");
+
+    let sp = ctx.space("serial.random",
+        "Serial::random and Serial::short_random(len) for len 0..=20 with a signer whose rand() writes a known octet pattern (start in {00,01,7F,80,FF,A5} x step in {0,1,37}): the result is the 20-octet array whose tail holds exactly the octets the signer produced (top bit of the first octet cleared), it is a valid serial (from_array accepts it and gives it back) and it survives Display -> FromStr and encode -> take_from like every enumerated serial; non-trivial = every (len, pattern); outcome classes: number of octets taken from the signer (the doc comment promises `len` octets of randomness, the code takes 20 - len: recorded, not judged)");
+    {
+        let mut lf = Lf::new(&ctx);
+        for start in [0x00u8, 0x01, 0x7F, 0x80, 0xFF, 0xA5] { for step in [0u8, 1, 37] {
+            let signer = PatternSigner { start, step };
+            for len in 0..=21usize {
+                sp.eval(); sp.nontrivial(1);
+                let wit = || if len == 21 { format!("random() pattern start={start:02x} step={step}") } else { format!("short_random(len={len}) pattern start={start:02x} step={step}") };
+                let r = guard(|| { let s = if len == 21 { Serial::random(&signer) } else { Serial::short_random(&signer, len) }.expect("pattern signer cannot fail");
+                    (s.into_array(), Serial::from_array(s.into_array()).ok() == Some(s), Serial::from_str(&s.to_string()).ok() == Some(s), lib_serial_take(&lib_serial_der(s)) == Ok(s), lib_serial_der(s)) });
+                match r {
+                    Err(p) => lf.fail("C17.serial.no_panic", wit, || p.clone()),
+                    Ok((arr, valid, text_ok, der_ok, der)) => {
+                        let l = if len == 21 { 0 } else { len };
+                        let mut want = [0u8; 20]; want[l..].copy_from_slice(&signer.stream(20 - l)); want[0] &= 0x7F;
+                        if arr != want { lf.fail("C17.serial.random", wit, || format!("array {} does not hold the signer's octets (expected {})", hex(&arr), hex(&want))) }
+                        if !valid { lf.fail("C17.serial.range", wit, || format!("generated array {} is not a valid serial", hex(&arr))) }
+                        if !text_ok { lf.fail("C17.serial.text.roundtrip", wit, || format!("array {}", hex(&arr))) }
+                        if !der_ok || der != tlv(0x02, &int_content(&arr)) { lf.fail("C17.serial.der.roundtrip", wit, || format!("array {} encoded as {}", hex(&arr), hex(&der))) }
+                        sp.outcome(if 20 - l == len { "signer-octets-equal-len" } else { "signer-octets-are-20-minus-len" });
+                    }
+                }
+            }
+        }}
+        sp.sample_str(|| "short_random(len=4) takes 16 octets from the signer".to_string());
+    }
+    sp.done(true, "22 calls x 18 patterns");
+
     // ---------------------------------------------------------------- (14)
     let sp = ctx.space("encode.writers",
         "the writer as a dimension of the encoders (all write through io::Write): encode_varied / encode_utc_time / encode_generalized_time of 26 instants, Validity::encode of all pairs of 6 of them, Serial::encode of every valid array with <= 2 non-zero octets, each written with write_encoded into 14 sinks (everything at once; 1, 2, 7 octets per call; first call 1 octet; ErrorKind::Interrupted once; capacity exactly the length; 1 and 3 octets short; BufWriter of capacity 8192 and 4 around a 1-per-call sink; breaking after 0 and 3 octets). Oracle: if write_encoded returns Ok the octets that arrived must decode back to the value (and equal the reference TLV); an error is acceptable only from a sink that cannot take the value; non-trivial = cases whose sink does not take everything in one call");
@@ -949,7 +1097,7 @@ fn main() {
         let civ: Vec<(i64, u32, u32, u32)> = vec![(1, 1, 1, 0), (999, 12, 31, 86399), (1949, 12, 31, 86399), (1950, 1, 1, 0), (1970, 1, 1, 1), (1999, 12, 31, 86399), (2000, 2, 29, 43200),
             (2024, 2, 29, 3661), (2049, 12, 31, 86399), (2050, 1, 1, 0), (2100, 2, 28, 86399), (9999, 12, 31, 86399), (2038, 1, 19, 11647)];
         let mut lf = Lf::new(&ctx); let mut oc = Oc::new();
-        let mut judge = |lf: &mut Lf, oc: &mut Oc, what: &dyn Fn() -> String, want: &[u8], enc: &dyn Fn(&mut dyn Write) -> io::Result<()>, back: &dyn Fn(&[u8]) -> bool| {
+        let judge = |lf: &mut Lf, oc: &mut Oc, what: &dyn Fn() -> String, want: &[u8], enc: &dyn Fn(&mut dyn Write) -> io::Result<()>, back: &dyn Fn(&[u8]) -> bool| {
             for &k in &sinks {
                 sp.eval(); if !matches!(k, SinkKind::Chunk(usize::MAX) | SinkKind::Exact) { sp.nontrivial(1) }
                 let wit = || format!("{} sink={:?}", what(), k);
